@@ -197,3 +197,7 @@ def run(ctx):
                 n.value.args and dotted(n.value.args[0]) == ap.args.args[0].arg for n in walk_no_nested(ap))
     ctx.inst('R15.7', mf.DEC + ':apply_decisions', 'merged = copy.deepcopy(%s)' % ap.args.args[0].arg, ok_py,
              'Python applies decisions to a deep copy of base' if ok_py else 'apply_decisions no longer deep-copies base', ap)
+
+
+from .extra import with_extra  # noqa: E402
+run = with_extra('C15', run)
